@@ -177,11 +177,32 @@ def make_list(ctx, P_in, cs, sel=None, box=None, as_atom_array=False):
                 kw["box"] = box
                 LAST_DECOY[0] = True
                 ctx.op("CellList.AtomArray_with_other_box")
+        elif (ctx.index or 0) % 4 == 2:
+            # a non-periodic list of a structure that carries a box, or that is given one: 'box' is documented to have
+            # an effect only if 'periodic' is true
+            arr.box = _idle_box(P_in)
+            if (ctx.index or 0) % 8 == 2:
+                kw["box"] = _idle_box(P_in)
+            ctx.op("CellList.nonperiodic_with_box")
         return _quiet(CellList, arr, cs, **kw), arr
     if box is not None:
         kw["periodic"] = True
         kw["box"] = box
+    elif (ctx.index or 0) % 4 == 2:
+        kw["box"] = _idle_box(P_in)
+        if (ctx.index or 0) % 8 == 2:
+            kw["periodic"] = False
+        ctx.op("CellList.nonperiodic_with_box")
     return _quiet(CellList, P_in, cs, **kw), None
+
+
+def _idle_box(P):
+    """A valid box smaller than the extent of the points (so that wrapping the points or the queries into it would show)."""
+    P = np.asarray(P, dtype=np.float64)
+    fin = P[np.isfinite(P).all(axis=1)] if P.size else P
+    ext = float(np.ptp(fin, axis=0).max()) if len(fin) else 1.0
+    L = max(0.37 * ext, 1.0)
+    return np.array([[L, 0, 0], [0.2 * L, 0.9 * L, 0], [0, 0.1 * L, 1.1 * L]], dtype=np.float32)
 
 
 def _fail_form(ctx, msg, res):
